@@ -17,7 +17,8 @@ SHARDS = {'quick': 4, 'thorough': 16}
 
 STATUSES = [200, 204, 400, 401, 403, 404, 429, 500, 503]
 BODIES = ['valid', 'error', 'error+cause', 'partial-error', 'non-json', 'empty',
-          'json-null', 'json-number', 'json-string', 'json-list']
+          'json-null', 'json-number', 'json-string', 'json-list',
+          'error-meta', 'non-json-meta', 'partial-error-meta']
 OPS = ['authenticate', 'authenticate-invalidate', 'refresh', 'validate',
        'invalidate', 'join', 'sign_out']
 FIELDS = ['username', 'access_token', 'client_token', 'profile_id',
@@ -37,6 +38,15 @@ def body_for(shape, n):
         return json.dumps({'error': 'IllegalArgumentException',
                            'errorMessage': 'Access token already has a '
                            'profile assigned.', 'cause': 'because'}).encode()
+    # text that means something to str.format / the % operator
+    if shape == 'error-meta':
+        return json.dumps({'error': 'Load {0} at 100% %s {x}',
+                           'errorMessage': 'try %(later)s {} %d 50%',
+                           'cause': '%'}).encode()
+    if shape == 'non-json-meta':
+        return b'<html><div style="width: 100%">{busy} %s %(x)d</div></html>'
+    if shape == 'partial-error-meta':
+        return json.dumps({'errorMessage': '100% {full}'}).encode()
     if shape == 'partial-error':
         return json.dumps({'error': 'OnlyHalf'}).encode()
     if shape == 'non-json':
@@ -256,14 +266,15 @@ def run(run):
             bad('%s/credentials-altered-on-error' % op, 'a failed operation '
                 'altered the stored credentials')
         if not isinstance(exc, YggdrasilError):
-            key_shape = shape if shape.startswith('json-') else 'other'
+            key_shape = shape if shape.startswith('json-') else \
+                'format-metacharacters' if shape.endswith('-meta') else 'other'
             bad('error/not-yggdrasil-error/%s' % key_shape, 'an HTTP error '
                 'reply must raise YggdrasilError')
             return
         if exc.status_code != status:
             bad('error/status-code', 'error does not carry the status code')
         effective = 'empty' if status == 204 else shape
-        if effective in ('error', 'error+cause'):
+        if effective in ('error', 'error+cause', 'error-meta'):
             body = json.loads(script['body'].decode())
             if exc.yggdrasil_error != body['error'] or \
                     exc.yggdrasil_message != body['errorMessage'] or \
